@@ -74,6 +74,11 @@ CHECKS['C15'] = dict(cat='model_checking', ref='5/C15',
     note='Collision-freeness of the 64-bit FNV hash outside the enumerated universe is not decided.',
     tech='TLA+ identity key; TLC enumeration; real hashes across arrangements, rounds and processes; TLC evaluation on observations')
 
+CHECKS['C16'] = dict(cat='model_checking', ref='5/C16',
+    text='spec/ConfigSync.tla models reloads, cosmetic changes, cycles with config push and lost pushes; what the hash can see (HashView) is a constant MEASURED on the real code: every single-leaf edit (120 loadable edits of a catalogue configuration with global, rules, alerting incl. relabeling and basic auth, two jobs with params, auth, TLS, relabel / metric relabel rules, kubernetes / file / static discovery, remote write with queue settings and relabeling, remote read), re-formattings and external-label edits are hashed by the real ConfigManager in-process, in a child process and through a real sidecar (config push + GET /runtimeinfo/); TLC decides InSyncIsTruthful for the measured view; for one edit per class the real Coordinator cycle runs against a real sidecar holding the old configuration and must push the new one before treating the shard as in sync.',
+    note='Single-leaf edits only; hashstructure collisions are not excluded.',
+    tech='TLA+ protocol model with measured constant; TLC; leaf-edit sweep on real ConfigManager across processes; protocol replay on real coordinator + sidecar')
+
 ALL = ['C%02d' % i for i in range(1, 21)]
 
 
